@@ -138,7 +138,7 @@ PROPS = {
         "assumptions": [
             "fault model: every World operation may fail nondeterministically (one or many faults, any position); a failed append may leave a torn tail, a failed flush a partial record",
             "proved at every error exit of write / put / delete / new_active_datafile: Index, WriterWf, StatsWeak, the model is unchanged, and after a restart the failed operation is applied or not applied, no other key affected",
-            "merge: only its Ok exits are under contract so far; error exits of merge are not claimed (see DESIGN.md, D8)",
+            "merge: its error exits carry one clause, C20.merge.err_usable_after (the Writer invariant still holds), which does NOT hold on the current code: OPEN KNOWN FINDING D8 (a merge that fails after creating an output leaves ids above the active id and wedges every later rollover), reproduced on the real code by the replayer. Nothing else is claimed about a failed merge (e.g. which inputs are already gone)",
         ],
     },
     "C09": {
